@@ -272,13 +272,18 @@ IsPerpendicular(a, b, tol) ==
 
 \* causal classification with a common tolerance: follows the sign of t^2 - mag^2
 \*   timelike  tau2 >  tol,  spacelike  tau2 < -tol,  lightlike  |tau2| <= tol
-\* (ties against the tolerance are "either"; the three never overlap)
-IsTimelike(v, tol)  == Tri(QSign(QSub(Tau2(v), tol)), TRUE)
-IsSpacelike(v, tol) == Tri(QSign(QAdd(Tau2(v), tol)), FALSE)
-IsLightlike(v, tol) == LET s1 == QSign(QSub(Tau2(v), tol))
-                           s2 == QSign(QAdd(Tau2(v), tol))
-                       IN  IF s1 < 0 /\ s2 > 0 THEN TT
-                           ELSE IF s1 > 0 \/ s2 < 0 THEN FF ELSE "either"
+\* The three never overlap and never leave a vector unclassified: on the boundary |tau2| = tol the vector is
+\* lightlike.  A boundary value is marked "tieT" / "tieF" (the documented answer, which rounding in a non-Cartesian
+\* storage or an inexactly representable tolerance may flip; it is binding where the arithmetic is exact).
+TriTie(sign, wantPositive) == IF sign = 0 THEN "tieF"
+                              ELSE IF wantPositive THEN BoolStr(sign > 0) ELSE BoolStr(sign < 0)
+Causal3(n2, tol) == LET s1 == QSign(QSub(n2, tol))
+                        s2 == QSign(QAdd(n2, tol))
+                    IN  IF s1 < 0 /\ s2 > 0 THEN TT
+                        ELSE IF s1 > 0 \/ s2 < 0 THEN FF ELSE "tieT"
+IsTimelike(v, tol)  == TriTie(QSign(QSub(Tau2(v), tol)), TRUE)
+IsSpacelike(v, tol) == TriTie(QSign(QAdd(Tau2(v), tol)), FALSE)
+IsLightlike(v, tol) == Causal3(Tau2(v), tol)
 
 \* ---- proper-time storage given directly (the user's tau need not come from a real t):
 \* a = <<x, y, z, tau>> with tau ANY rational.  The documented conventions: tau2 is the signed square of
@@ -289,10 +294,7 @@ RawT2(a)    == QMax(QAdd(RawTau2(a), Mag2(<<a[1], a[2], a[3]>>)), Zero)
 RawT(a)     == Sqrt(RawT2(a))
 \* the class follows the sign of t^2 - mag^2 with the t the vector really has (the clamped one)
 RawNorm2(a) == QSub(RawT2(a), Mag2(<<a[1], a[2], a[3]>>))
-RawIsTimelike(a, tol)  == Tri(QSign(QSub(RawNorm2(a), tol)), TRUE)
-RawIsSpacelike(a, tol) == Tri(QSign(QAdd(RawNorm2(a), tol)), FALSE)
-RawIsLightlike(a, tol) == LET s1 == QSign(QSub(RawNorm2(a), tol))
-                              s2 == QSign(QAdd(RawNorm2(a), tol))
-                          IN  IF s1 < 0 /\ s2 > 0 THEN TT
-                              ELSE IF s1 > 0 \/ s2 < 0 THEN FF ELSE "either"
+RawIsTimelike(a, tol)  == TriTie(QSign(QSub(RawNorm2(a), tol)), TRUE)
+RawIsSpacelike(a, tol) == TriTie(QSign(QAdd(RawNorm2(a), tol)), FALSE)
+RawIsLightlike(a, tol) == Causal3(RawNorm2(a), tol)
 =============================================================================
